@@ -748,7 +748,8 @@ def socket_lifecycle_cases(ctx, hook):
     n = 0
     for peer, via, autoreset in [(p, v, a) for a in (False, True)
                                  for p in ('alive', 'closed', 'reset', 'reset-noticed-by-writing')
-                                 for v in ('close', 'with', 'del') + (('iterate',) if p == 'closed' else ())]:
+                                 for v in ('close', 'with', 'del') + (('iterate',) if p == 'closed' else ())
+                                 + (('read-then-close',) if p == 'reset' else ())]:
         if True:
             case = {'kind': 'socket-lifecycle', 'peer': peer, 'via': via, 'autoreset': autoreset}
             server = client = port = None
@@ -797,6 +798,21 @@ def socket_lifecycle_cases(ctx, hook):
                 try:
                     if via == 'close':
                         port.close()
+                    elif via == 'read-then-close':
+                        # the peer's message arrived before its reset: reading may fail (the reset is reported as OSError, by
+                        # design), but what had arrived completely is handed out - by the calls before close() or after it
+                        got = []
+                        for _ in range(4):
+                            try:
+                                m = port.poll()
+                                if m is not None:
+                                    got.append(tag_of(m))
+                            except OSError:
+                                pass
+                        port.close()
+                        got += [tag_of(m) for m in port.iter_pending()]
+                        ctx.check('results == lifecycle model', got == [('o', 1)], 'socket:arrived-before-reset-lost', case,
+                                  {'got': repr(got)})
                     elif via == 'iterate':
                         # the port notices the disconnect by reading: what arrived is handed out, then iteration ends
                         got = [tag_of(m) for m in port]
